@@ -51,6 +51,21 @@ CHECKS.update({
          "Every program of m statements whose expressions range over all call/object expressions up to the depth bound (27 forms: arities, mismatches, recursion, two instances, constructor, 其, nested and failing nested calls, chains, unknown members) with traced leaves is executed and compared with the reference interpreter on ordered trace and error-ness; both instances are observed at the end.",
          "Trusted: the reference interpreter (manual ch.8). Deeper expressions / longer programs are not covered.",
          "DESIGN.md §4 C08"),
+ "C09": ("exploration",
+         "bounded exhaustive enumeration (E1) of the raise-kind x site x depth x handler-placement product with state probes, against a reference interpreter",
+         "Every combination of raise kind (7), raise site (6), call depth, handler placement per level (4 each), handler body (3), receiver kind and module boundary is generated as a program with follow-up probes after the handled call (caller locals, caller's 其, a callee local that must be gone, a second call, VM call depth and scope depth) and compared with the reference interpreter.",
+         "Trusted: the reference interpreter's exception semantics (manual ch.4). Fault message texts are not compared.",
+         "DESIGN.md §4 C09"),
+ "C14": ("exploration",
+         "bounded exhaustive enumeration (E1) of texts x index pairs, templates x argument lists and directives x doubles, Python %-formatting as independent oracle",
+         "All texts <= 3 characters over 1-4-byte characters and a combining mark x all index pairs in [-5,5]^2 for 取样 / 长度 / 字符组 / 分隔; every template up to the length bound over 11 symbols x argument lists of length p-1, p, p+1; every directive x precision x boundary double against Python's % formatting.",
+         "Trusted: Go utf8, Python 3 % formatting (batch oracle only), the reference template scanner. Undocumented directive combinations only need to be error-or-artefact-free.",
+         "DESIGN.md §4 C14"),
+ "C17": ("exploration",
+         "bounded exhaustive enumeration (E1) of valid texts at every block-boundary alignment / chunking and of invalid byte strings at every position",
+         "Every short text over 1-4-byte characters, U+FFFD and BOM with each internal byte boundary on read-block boundaries 4096 and 8192, every Read(n) chunking n in 1..9 and alternating pairs, every byte string <= 2 over all 256 values (<= 3 over structural bytes) inserted at start/middle/boundary/end, every single-byte substitution of a sample, GBK files, and end-to-end runs of corrupted programs: valid => exactly []rune minus one BOM, invalid => error and nothing executed.",
+         "Trusted: Go utf8.Valid and []rune conversion.",
+         "DESIGN.md §4 C17"),
 })
 NOT_YET = {}
 props = [json.loads(l) for l in open(f"{V}/properties.jsonl")]
